@@ -12,7 +12,7 @@ META = {
                            "parent fingerprint / child number symbolic",
                   "codec": "78-byte xprv/xpub: depth, fingerprint, child number, chain code, key all symbolic, for each of the 20 version prefixes; every 2- and 3-step history of raw_serialize / xpub() / xpub(zpub) / xprv() on one object",
                   "traverse": "paths of 1..4 components from a fixed list of renderings (' / h / H, upper- and lower-case m) over symbolic key material"},
-        "thorough": {"traverse": "paths up to 8 components"}},
+        "thorough": {"traverse": "paths up to 6 components"}},
     "outside": ["is_valid_bip32_path / combine_bip32_paths / blind_xpub path bookkeeping on arbitrary path *strings* (regex and str methods on symbolic "
                 "text are beyond the engine; strings stay concrete)", "from_seed beyond the HMAC wiring (covered in C14)",
                 "the BIP32 invalid-child cases IL >= N and child key 0 (probability < 2^-127): assumed not to occur",
@@ -275,7 +275,7 @@ def replay_codec(w):
 
 PATHS = [("m/0", [0]), ("m/0'", [0x80000000]), ("M/1H/2", [0x80000001, 2]), ("m/44h/0h/7'", [0x8000002C, 0x80000000, 0x80000007]),
          ("m/2147483647/0/1/2", [0x7FFFFFFF, 0, 1, 2]), ("m/1/2'/3h/4H", [1, 0x80000002, 0x80000003, 0x80000004])]
-LONG_PATHS = [("m/0/1/2/3/4/5/6/7", list(range(8))), ("m/48h/1h/0h/2h/0/5", [0x80000030, 0x80000001, 0x80000000, 0x80000002, 0, 5])]
+LONG_PATHS = [("m/0/1/2/3/4/5", list(range(6))), ("m/48h/1h/0h/2h/0/5", [0x80000030, 0x80000001, 0x80000000, 0x80000002, 0, 5])]
 
 
 @with_env("hd")
@@ -316,10 +316,11 @@ def _traverse_path(e, path, idxs):
     return "ok"
 
 
-def ob_traverse(long):
-    runs = [sym_run(lambda: _traverse_path(p, ix), mode="int", timeout_ms=120000) for p, ix in (PATHS + (LONG_PATHS if long else []))]
+def ob_traverse(which):
+    sel = [(p, ix) for p, ix in (PATHS + LONG_PATHS) if p in which]
+    runs = [sym_run(lambda: _traverse_path(p, ix), mode="int", timeout_ms=120000) for p, ix in sel]
     m = merge_runs(runs)
-    m["sample"] = {"paths": [p for p, _ in PATHS], "key material": "symbolic"}
+    m["sample"] = {"paths": [p for p, _ in sel], "key material": "symbolic"}
     return m
 
 
@@ -339,4 +340,5 @@ def obligations(tier):
     q = tier == "quick"
     return [Ob("O1-child", ob_child, replay="child"), Ob("O2-codec", ob_codec, {"priv": True}, replay="codec"),
             Ob("O2-codec", ob_codec, {"priv": False}, replay="codec"), Ob("O2-codec-history", ob_codec_history, replay="codec_history"),
-            Ob("O3-traverse", ob_traverse, {"long": not q}, replay="traverse", budget_s=1800)]
+            Ob("O3-traverse", ob_traverse, {"which": tuple(p for p, _ in PATHS)}, replay="traverse", budget_s=1800)] + \
+        ([] if q else [Ob("O3-traverse", ob_traverse, {"which": (p,)}, replay="traverse", budget_s=6000) for p, _ in LONG_PATHS])
